@@ -1424,6 +1424,22 @@ where
                     'S' => {
                         debug!("Sending query to server");
 
+                        // A Sync-terminated batch in the middle of a COPY is a protocol violation:
+                        // the server answers it with more than one ReadyForQuery and we would
+                        // leave the extra replies on the connection for its next user.
+                        if server.in_copy_mode() {
+                            server.mark_bad("extended protocol batch received during COPY");
+                            self.reset_buffered_state();
+                            error_response_terminal(
+                                &mut self.write,
+                                "protocol violation: extended query message during COPY",
+                            )
+                            .await?;
+                            return Err(Error::ProtocolSyncError(
+                                "extended protocol batch received during COPY".into(),
+                            ));
+                        }
+
                         match plugin_output {
                             Some(PluginOutput::Deny(error)) => {
                                 error_response(&mut self.write, &error).await?;
